@@ -455,6 +455,81 @@ pub fn used_aspartix_reader(used: bool) -> AspartixReader {
     r
 }
 
+/// A lazily produced input: `head`, then `n_filler` copies of `filler`, then `tail`.
+struct LazyInput {
+    head: Vec<u8>,
+    filler: Vec<u8>,
+    n_filler: usize,
+    tail: Vec<u8>,
+    /// (part, offset inside the part, fillers already emitted)
+    pos: (u8, usize, usize),
+}
+
+impl std::io::Read for LazyInput {
+    fn read(&mut self, buf: &mut [u8]) -> std::io::Result<usize> {
+        loop {
+            let (part, off, done) = self.pos;
+            let src: &[u8] = match part {
+                0 => &self.head,
+                1 => {
+                    if done >= self.n_filler {
+                        self.pos = (2, 0, done);
+                        continue;
+                    }
+                    &self.filler
+                }
+                2 => &self.tail,
+                _ => return Ok(0),
+            };
+            if off >= src.len() {
+                self.pos = match part {
+                    0 => (1, 0, 0),
+                    1 => (1, 0, done + 1),
+                    _ => (3, 0, done),
+                };
+                continue;
+            }
+            let k = buf.len().min(src.len() - off);
+            buf[..k].copy_from_slice(&src[off..off + k]);
+            self.pos = (part, off + k, done);
+            return Ok(k);
+        }
+    }
+}
+
+fn huge_stream(fmt: u8) -> Result<(), Failure> {
+    let mib = 1usize << 20;
+    let name = if fmt == 0 { "iccma23" } else { "aspartix" };
+    let (head, filler, tail): (Vec<u8>, Vec<u8>, Vec<u8>) = if fmt == 0 {
+        let mut c = vec![b'#'; mib - 1];
+        c.push(b'\n');
+        (b"p af 2\n".to_vec(), c, b"1 2\n".to_vec())
+    } else {
+        // Aspartix has no comments: the filler is a duplicate declaration padded with blanks inside the parentheses
+        let mut c = b"arg(".to_vec();
+        c.extend(std::iter::repeat(b' ').take(mib - 9));
+        c.extend_from_slice(b"a).\n");
+        (b"arg(a).\narg(b).\n".to_vec(), c, b"att(a,b).\n".to_vec())
+    };
+    let mut input = LazyInput { head, filler, n_filler: 4_100, tail, pos: (0, 0, 0) };
+    let r = guard(move || {
+        if fmt == 0 {
+            Iccma23Reader::default().read(&mut input).map(|af| (af.n_arguments(), af.n_attacks())).map_err(|e| e.to_string())
+        } else {
+            AspartixReader::default().read(&mut input).map(|af| (af.n_arguments(), af.n_attacks())).map_err(|e| e.to_string())
+        }
+    });
+    match r {
+        Err(p) => Err(Failure::new(format!("C13/{}/panic-on-an-input-above-2^32-bytes", name), p).unshrinkable()),
+        Ok(Ok((2, 1))) => Ok(()),
+        Ok(other) => Err(Failure::new(
+            format!("C13/{}/well-formed-input-above-2^32-bytes-not-read-as-declared", name),
+            format!("4100 filler lines of 1 MiB between the declarations and the attack: reader returned {:?}, expected 2 arguments and 1 attack", other),
+        )
+        .unshrinkable()),
+    }
+}
+
 /// The oracle shared with the fuzz target. Returns a class name for statistics.
 pub fn check_bytes(fmt: u8, bytes: &[u8]) -> Result<&'static str, Failure> {
     let name = if fmt == 0 { "iccma23" } else { "aspartix" };
@@ -566,6 +641,18 @@ impl Prop for Readers {
         tier.pick(5_000_000, 60_000_000)
     }
     fn extra_phase(&self, tier: Tier, seed: u64, rec: &mut Rec) -> Result<(), (ReaderCase, Failure)> {
+        // One streamed input of more than 2^32 bytes per format (a two-argument framework between 4100
+        // comment / blank-padded lines of 1 MiB): byte counters of 32 bits. The stream is produced lazily, the
+        // input is well-formed, so the reader must return exactly that framework. (The case cannot be stored as a
+        // replay file; a failure is reported with an empty case and this description.)
+        // (the Aspartix reader matches every line against a pattern: 4 GiB take it two minutes, thorough tier only)
+        for fmt in 0..(if tier == Tier::Thorough { 2u8 } else { 1u8 }) {
+            if let Err(f) = huge_stream(fmt) {
+                return Err((ReaderCase { fmt, bytes: vec![] }, f));
+            }
+            rec.eval();
+            rec.class("streamed-input-above-2^32-bytes");
+        }
         // corpus: a few well-formed and corrupted files from the grammar generators, reader selector byte first
         let strat = prop_oneof![iccma_case(6, 0), apx_case(6, 0), iccma_case(6, 2), apx_case(6, 2)].boxed();
         let seeds: Vec<Vec<u8>> = (0..24)
